@@ -11,6 +11,8 @@
 open Ex_c18
 open Common_c18
 
+(* a step of the case: an operation of the store model, or "n temporary copies made and destroyed again" (no lasting effect on the model) *)
+type cstep = ONop | OOp of n op
 let veq = N.eq_dec
 let tri_of_char = function '0' -> T0 | '1' -> T1 | 'X' -> TX | _ -> failwith "model: bad assignment"
 let asgn_of_word (w : string) : tri list = if w = "-" then [] else List.map tri_of_char (List.init (String.length w) (String.get w))
@@ -26,21 +28,22 @@ let () = each_line (fun l ->
   let nv = num t in
   let ops = ref [] in
   let nat () = nat_of_int (num t) in
-  let selfassign = ref 0 and destroys = ref 0 in
+  let selfassign = ref 0 and destroys = ref 0 and bulk = ref 0 in
   while peek t <> None do
     let w = word t in
     let h = nat () in
     let op = (match w with
-     | "C" -> let a = asgn_of_word (word t) in let v = n_of_int (num t) in let d = n_of_int (num t) in OConstruct (h, a, v, d)
-     | "K" -> OLeaf (h, n_of_int (num t))
-     | "Y" -> OCopy (h, nat ())
-     | "A" -> let g = nat () in (if g = h then incr selfassign); OAssign (h, g)
-     | "U" -> let f = n_of_int (num t) in OApply1 (h, op1 dom f, nat ())
-     | "B" -> let f = n_of_int (num t) in let a = nat () in let b = nat () in OApply2 (h, op2 dom f, a, b)
-     | "T" -> let f = n_of_int (num t) in let a = nat () in let b = nat () in let c = nat () in OApply3 (h, op3 dom f, a, b, c)
-     | "E" -> let a = asgn_of_word (word t) in let off = nat () in OExtend (h, a, off, nat ())
-     | "X" -> let a = asgn_of_word (word t) in let off = nat () in OPrefix (h, a, off, nat ())
-     | "D" -> incr destroys; ODestroy h
+     | "C" -> let a = asgn_of_word (word t) in let v = n_of_int (num t) in let d = n_of_int (num t) in OOp (OConstruct (h, a, v, d))
+     | "K" -> OOp (OLeaf (h, n_of_int (num t)))
+     | "Y" -> OOp (OCopy (h, nat ()))
+     | "A" -> let g = nat () in (if g = h then incr selfassign); OOp (OAssign (h, g))
+     | "U" -> let f = n_of_int (num t) in OOp (OApply1 (h, op1 dom f, nat ()))
+     | "B" -> let f = n_of_int (num t) in let a = nat () in let b = nat () in OOp (OApply2 (h, op2 dom f, a, b))
+     | "T" -> let f = n_of_int (num t) in let a = nat () in let b = nat () in let c = nat () in OOp (OApply3 (h, op3 dom f, a, b, c))
+     | "E" -> let a = asgn_of_word (word t) in let off = nat () in OOp (OExtend (h, a, off, nat ()))
+     | "X" -> let a = asgn_of_word (word t) in let off = nat () in OOp (OPrefix (h, a, off, nat ()))
+     | "D" -> incr destroys; OOp (ODestroy h)
+     | "Z" -> ignore (num t); incr bulk; ONop
      | _ -> failwith ("model: unknown op " ^ w)) in
     ops := op :: !ops
   done;
@@ -60,7 +63,7 @@ let () = each_line (fun l ->
       match !st with
       | None -> ()
       | Some s ->
-        (match step veq s op with
+        (match (match op with ONop -> Some (s, []) | OOp o -> step veq s o) with
          | None -> fail "invalid"; st := None
          | Some (s', log) ->
            st := Some s';
@@ -94,4 +97,4 @@ let () = each_line (fun l ->
     (if !fails = [] then "OK" else "FAIL " ^ String.concat "," (List.rev !fails))
     ^ (if !drift then " DRIFT size_exact" else "")
     ^ Printf.sprintf " steps=%d destroys=%d released=%d maxnodes=%d maxlive=%d selfassign=%d%s" (List.length ops) !destroys !released !maxnodes !maxlive !selfassign
-        (if !shared then " shared" else ""))
+        (if !shared then " shared" else "") ^ (if !bulk > 0 then " bulk" else ""))
